@@ -41,12 +41,13 @@ FilenamesNotExact(c, t) ==
     LET P == ProducersOf(c.M, SeqToSet(t.filenames))
     IN (ExplicitOutsOf(c.M, P) \ SeqToSet(t.filenames)) \cup (SeqToSet(t.filenames) \ ExplicitOutsOf(c.M, P))
 
-\* the compile statements of a linked target: statements (other than producers of some target's file) whose
-\* outputs the target's link statement takes as explicit input
+\* the compile statements of a linked target: statements running a compiler the introspection names (flag
+\* `cc` of the edge: its command line starts with a "compiler" command of intro-targets.json), other than
+\* producers of some target's file, whose outputs the target's link statement takes as explicit input
 LinkStmts(c, t) == ProducersOf(c.M, SeqToSet(t.filenames))
 CompileEdgesOf(c, t) ==
     LET objs == UNION {ExplicitIns(c.M, e) : e \in LinkStmts(c, t)}
-    IN {e \in NonPhony(c.M) : Outs(c.M, e) \cap objs # {} /\ Outs(c.M, e) \cap AllFilenames(c) = {}}
+    IN {e \in NonPhony(c.M) : c.M.edges[e].cc /\ Outs(c.M, e) \cap objs # {} /\ Outs(c.M, e) \cap AllFilenames(c) = {}}
 Consumed(c, t) == UNION {ExplicitIns(c.M, e) : e \in CompileEdgesOf(c, t)}
 AllListed(c) == UNION {SeqToSet(c.targets[u].srcs) \cup SeqToSet(c.targets[u].gens) \cup SeqToSet(c.targets[u].unity)
                          : u \in DOMAIN c.targets}
@@ -90,7 +91,8 @@ TargetsVsModel(c) == (ModelFileSets(c.p) \ IntroFiles(c)) \cup (IntroFiles(c) \ 
 BbdDefinite(t) == ~(IsBuild(t) /\ t.bbd = "false" /\ t.install)
 BbdWrong(c) ==
     {i \in Targets(c.p) : ~IsRunLike(c.p.targets[i]) /\ BbdDefinite(c.p.targets[i]) /\
-        \E t \in DOMAIN c.targets : /\ SeqToSet(c.targets[t].filenames) \subseteq FilePaths(c.p, c.p.targets[i])
+        \E t \in DOMAIN c.targets : /\ c.targets[t].type \in FileTypes
+                                    /\ SeqToSet(c.targets[t].filenames) \subseteq FilePaths(c.p, c.p.targets[i])
                                     /\ c.targets[t].filenames # <<>>
                                     /\ c.targets[t].bbd # DefaultBuilt(c.p.targets[i])}
 
